@@ -102,6 +102,21 @@ impl C07 {
         }
         let mut long = ohmc_core::uni::lists(2, 9);
         long.extend(ohmc_core::uni::lists(3, 6).into_iter().filter(|l| l.contains(&2)));
+        // patterned arrays around lengths 16 / 32 / 64 (thresholds of sort-based or blocked code paths)
+        for len in [15usize, 16, 17, 18, 31, 32, 33, 63, 64, 65] {
+            let pats: Vec<Vec<usize>> = vec![
+                vec![0; len],
+                vec![1; len],
+                (0..len).map(|i| i % 3).collect(),
+                (0..len).map(|i| (len - i) % 4).collect(),
+                (0..len).map(|i| if i + 1 == len { 2 } else { 1 }).collect(),
+                (0..len).map(|i| if i == 0 { 2 } else { 1 }).collect(),
+                (0..len).map(|i| if i == len / 2 { 0 } else { 3 }).collect(),
+                (0..len).map(|i| i % 2).collect(),
+                (0..len).map(|i| if i < len / 2 { 1 } else { 0 }).collect(),
+            ];
+            long.extend(pats);
+        }
         let big_graphs = structured_graphs();
         let na = arrays.len() as u64;
         let ns = short.len() as u64;
